@@ -75,7 +75,7 @@ def main(ctx):
               "decorated_handler_invoked", "user_error_reported", "protocol_error_raised",
               "shape:none", "shape:args", "shape:kwargs", "shape:both",
               "unsub_in_subscribe_callback", "callee_variant_transitions", "handler_kinds_events",
-              "pattern_subscription_events", "encoded_event_cases"):
+              "pattern_subscription_events", "encoded_event_cases", "callable_kinds"):
         ctx.require(n)
 
 
@@ -811,6 +811,53 @@ def _job_kinds(a):
         if exc is not None or seen_topics != want:
             bad("event-details-topic", "subscription %r (match=%s), EVENT with Details.topic=%r: handler saw "
                 "details.topic %r, expected %r (raised %r)" % (pattern, match, published, seen_topics, want, exc))
+    # ---- handlers that are callables other than functions / methods: functools.partial objects,
+    # instances with __call__, bound methods of builtins - subscribe(handler, topic) treats every
+    # callable as ONE handler: one SUBSCRIBE, and the EVENT reaches it
+    import functools
+    seen_c = []
+
+    def _target(tag, *a_, **k_):
+        seen_c.append((tag, tuple(a_), dict(k_)))
+
+    class _CallableObj:
+        def __call__(self, *a_, **k_):
+            seen_c.append(("instance", tuple(a_), dict(k_)))
+    sink = []
+    for name, handler, expect in (
+            ("partial", functools.partial(_target, "partial"), lambda: seen_c == [("partial", (5, "x"), {"k": 1})]),
+            ("callable-instance", _CallableObj(), lambda: seen_c == [("instance", (5, "x"), {"k": 1})]),
+            ("builtin-bound-method", sink.append, lambda: sink == [5]),
+            ("lambda", (lambda *a_, **k_: seen_c.append(("lambda", tuple(a_), dict(k_)))),
+             lambda: seen_c == [("lambda", (5, "x"), {"k": 1})])):
+        l1 = H.L1(observers=False).join()
+        s = l1.session
+        del seen_c[:]
+        del sink[:]
+        n0 = len(l1.transport.sent)
+        r = l1.api(s.subscribe, handler, "com.callables.t")
+        l1.settle()
+        subs_ = [m for m in l1.transport.sent[n0:] if isinstance(m, M.Subscribe)]
+        evals += 1
+        stats["callable_kinds"] += 1
+        if r[0] == "raise" or len(subs_) != 1:
+            bad("callable-handler-not-subscribed", "subscribe(<%s>, topic): %s, %d SUBSCRIBE messages sent" % (
+                name, "raised %s" % H.exc_brief(r[1]) if r[0] == "raise" else "returned", len(subs_)))
+            continue
+        l1.track("s", r[1])
+        l1.deliver(M.Subscribed(subs_[0].request, 91))
+        l1.settle()
+        if l1.fstate("s")[0] != "ok" or isinstance(l1.fstate("s")[1], list):
+            bad("callable-handler-not-subscribed", "subscribe(<%s>, topic) completed with %s" % (name, l1.fbrief("s")))
+            continue
+        if name == "builtin-bound-method":
+            exc = l1.deliver(M.Event(91, 903, args=[5]))
+        else:
+            exc = l1.deliver(M.Event(91, 903, args=[5, "x"], kwargs={"k": 1}))
+        l1.settle()
+        if exc is not None or not expect():
+            bad("callable-handler-not-invoked", "EVENT for a <%s> handler: calls %r / %r, raised %r" % (
+                name, seen_c, sink, exc))
     # ---- the same with a payload codec active and the EVENT's payload encoded: each handler of the
     # subscription still gets the published arguments, once (exact and pattern-based subscriptions;
     # the URI inside the envelope is the concrete topic)
